@@ -435,6 +435,7 @@ type Pipe struct {
 	srvClosed   bool   // server closed its end
 	cliClosed   bool   // client closed its end (server reads see EOF after draining)
 	SrvWrites   int
+	SrvReadChunk int // >0: the server's reads get at most this many bytes at a time
 	closedAt    time.Duration
 	WriteErrors int
 }
@@ -456,6 +457,9 @@ func (c *srvConn) Read(b []byte) (int, error) {
 	}
 	if len(p.toSrv) == 0 {
 		return 0, io.EOF
+	}
+	if p.SrvReadChunk > 0 && len(b) > p.SrvReadChunk {
+		b = b[:p.SrvReadChunk]
 	}
 	n := copy(b, p.toSrv)
 	p.toSrv = p.toSrv[n:]
